@@ -83,7 +83,7 @@ register("C10", "props.c10", ["ValidaProofs.C10"], 1200, 30000,
          "30% part specs (long / shorthand forms, labels), 25% path specs with datum / multiplicity suffixes in both orders, 10% path "
          "strings, 35% rule specs (cast, every doc shape) also pushed through YAML text; each compared with the API-built object "
          "(equality and behaviour on documents grown along the path); distinct = shape tuples; non-trivial = accepted spec")
-register("C11", "props.c11", ["ValidaProofs.C11"], 1500, 40000,
+register("C11", "props.c11", ["ValidaProofs.C11", "ValidaProofs.C11Round"], 1500, 40000,
          "one case = a condition tree of the fragment (all callables on value/key/index, length with numeric comparisons, type with "
          "equality / membership; JSON-like, type and data-path arguments incl. literal mappings with path-like keys) pushed through "
          "to_json_like, json.dumps/loads, from_json_like; distinct = (class, callable) pairs; non-trivial = every case")
